@@ -94,9 +94,10 @@ def ref_parse(s):
     route = None
     if "@" in s:
         s, route = s.split("@", 1)
-        r = ref_station(route)          # route: station or ip[:port]
-        if r["ip"] and "/" in route:
-            raise Invalid("mask in route")
+        # route: decimal station, 0x.. octets or ip[:port] (no X'..' form, no mask)
+        if _XHEX.match(route) or "/" in route:
+            raise Invalid("route form")
+        ref_station(route)
     if s == "*":
         return {"type": LB, "net": None, "octets": None, "ip": None}
     if s == "*:*":
